@@ -387,7 +387,9 @@ KINDS = (pg.RET, pg.ERROR, pg.FAIL, pg.SKIP, pg.KBI)
 
 
 def config_of(regs):
-    return pg.Config(actions=build_actions(regs), kinds=KINDS, setup_pre_kinds=(pg.ERROR,))
+    # ("@xfail" is not a registration: the test method carries unittest.expectedFailure)
+    dec = "xfail_decorator" if "@xfail" in regs else None
+    return pg.Config(actions=build_actions(tuple(r for r in regs if r != "@xfail")), kinds=KINDS, setup_pre_kinds=(pg.ERROR,), decorator=dec)
 
 
 def run_once(case, ctx, flavour):
@@ -404,6 +406,7 @@ def run_once(case, ctx, flavour):
 def execute(regs, flavour, chooser):
     config = config_of(regs)
     ctx = pg.Ctx(config, chooser)
+    ctx.extra["flavour"] = flavour
     case = pg.new_case(config, ctx)
     outs1, how1 = run_once(case, ctx, flavour)
     xlog1 = list(ctx.xlog)
@@ -455,7 +458,7 @@ def check_execution(ctx, config, run1, run2):
         qmodel = pg.ModelRun(config, memo3)
         if pg.impl_stage_log(xlog3) != list(qmodel.stages):
             problems.append(("rerun-quiet", "third run of the same instance, nothing raising: execution log %r, lifecycle model %r" % (pg.impl_stage_log(xlog3), list(qmodel.stages))))
-        elif (outs3, how3) != (["addSuccess"], ("returned",)) and not any(a[0] == "bad_fixture" for acts in config.actions.values() for a in acts):
+        elif (outs3, how3) != ([("addFailure" if ctx.extra.get("flavour") == "py26" else "addUnexpectedSuccess") if config.decorator == "xfail_decorator" else "addSuccess"], ("returned",)) and not any(a[0] == "bad_fixture" for acts in config.actions.values() for a in acts):
             problems.append(("rerun-quiet", "third run of the same instance, in which nothing raises, gave %r %r (first run: %r %r)" % (outs3, how3, outs1, how1)))
     for sc in (scratch1, scratch2):
         if getattr(sc, "existing", None) != "orig":
@@ -474,7 +477,7 @@ CORE = ("cleanup@setUp.pre", "cleanup@setUp", "cleanup@test", "cleanup@tearDown"
 
 
 def all_regsets(tier):
-    out = [()]
+    out = [(), ("@xfail",), ("@xfail", "cleanup@test")]
     for n in (1, 2):
         for combo in itertools.product(REGS, repeat=n):
             out.append(combo)
